@@ -1,16 +1,14 @@
 (* C17 — Parse result does not depend on how the reader delivers the bytes.
    Line-based readers: the tokens the scanner delivers are [lines data] for every schedule of read sizes
    (zero-length reads and data-with-EOF included), so every reader that is a function of the token list is
-   schedule-independent.  STL: a block that is present in full is returned whole for every schedule.
-   The SSA/ASS reader is such a function too (C17_ssa).  TTML and teletext hand the stream to encoding/xml and astits: covered by the harness only. *)
+   schedule-independent (SubRip, WebVTT, SSA/ASS: C17_ssa).  STL: a block that is present in full is returned whole
+   for every schedule, fewer bytes than a block give end-of-file (none) or an error (some) for every schedule, and
+   ReadFromSTL with its blocks obtained through readNBytes under any schedule (each block read continuing where the
+   previous one stopped; a block split across reads, zero-length reads, data arriving with the end-of-file) equals the
+   one-shot reader (C17_stl).  TTML and teletext hand the stream to encoding/xml and astits: covered by the harness only. *)
 From Coq Require Import List NArith Bool Arith.
 From Astisub Require Import Kit.Base Kit.Scan Model.Srt Model.Vtt Proofs.ScanProofs Proofs.SrtIOProofs Proofs.VttIOProofs.
 From Astisub Require Import Model.Ssa Proofs.SsaIOProofs.
-   schedule-independent.  STL: a block that is present in full is returned whole for every schedule, fewer bytes than a
-   block give end-of-file (none) or an error (some) for every schedule, and ReadFromSTL with its blocks obtained through
-   readNBytes under any schedule (each block read continuing where the previous one stopped; a block split across
-   reads, zero-length reads, data arriving with the end-of-file) equals the one-shot reader (C17_stl).
-   TTML and teletext hand the stream to encoding/xml and astits: covered by the harness only. *)
 From Astisub Require Import Model.Stl Model.StlIO Proofs.StlIOProofs.
 Import ListNotations.
 Open Scope N_scope.
